@@ -88,6 +88,7 @@ type Unit struct {
 	mapTags     map[string]*types.Map
 	mapWFDone   map[string]bool
 	reachCache  map[string]bool
+	sumDone     map[string]bool
 	heapInfo    map[string]heapInfo
 	nextEpoch   int
 	oblCount    map[string]int
